@@ -10,9 +10,13 @@
 //!   call <shape> <sval>*      script call `(f a0 .. ak)` of a recording host fn registered with
 //!                             Engine::register_fn                        -> ok recv=<hv;..> | err:<kind> called=<yes|no>
 //!   lend <rw|ro>+ / copy / drop / get / getro / set / derive / end      borrowed references (see below)
+//!   slice <eng|mod> <h> <c> <sval>*   `(node-sum-<v> REF a..)`: a host fn `Fn(&mut SELF, &[isize], isize)` registered through
+//!                             Engine::register_fn / BuiltInModule::register_fn (hand-written wrappers of register_fn.rs)
+//!   mkstruct <sval>*          constructor + getters of a struct registered the way `#[derive(Steel)]` does  -> ok list:[..] | err:<kind>
+//!   copy places: global closure list vector mvector hashmap box struct nested promise param hashset thread restargs cont
 //!   reset                     fresh engine
 //!
-//! <hv>  host values:   123 | t | f | c65 | s<hex> | u | n | S(<hv>) | [a,b] | (a,b) | {k=v,..} | <a,b> | O(x) | E(x) | R7
+//! <hv>  host values:   123 | t | f | c65 | g<f32 bits> | b<f64 bits> | s<hex> | u | n | S(<hv>) | [a,b] | (a,b) | {k=v,..} | <a,b> | O(x) | E(x) | R7
 //! <sval> script values: int:5 big:5 num:<bits> bool:t char:65 str:<hex> sym:<hex> void list:[..] vec:[..] mvec:[..]
 //!                       map:{k=v,..} set:{a,b} okv:(v) errv:(v) custom:rec:7 custom:other:7
 use std::cell::RefCell;
@@ -24,7 +28,8 @@ use steel::gc::unsafe_erased_pointers::CustomReference;
 use steel::rerrs::ErrorKind;
 use steel::rvals::{Custom, FromSteelVal, IntoSteelVal};
 use steel::steel_vm::engine::Engine;
-use steel::steel_vm::register_fn::{MarkerWrapper7, MarkerWrapper8, RegisterFn};
+use steel::steel_vm::builtin::BuiltInModule;
+use steel::steel_vm::register_fn::{MarkerWrapper6, MarkerWrapper7, MarkerWrapper8, RegisterFn};
 use steel::{SteelErr, SteelVal};
 
 // ------------------------------------------------------------------------------------------------
@@ -179,6 +184,18 @@ impl HV for f64 {
         format!("b{}", self.to_bits())
     }
 }
+impl HV for f32 {
+    fn parse(p: &mut P) -> Result<Self, PErr> {
+        if !p.eat(b'g') {
+            return Err(PErr::Syntax);
+        }
+        let t = p.int_text().ok_or(PErr::Syntax)?;
+        Ok(f32::from_bits(t.parse::<u32>().map_err(|_| PErr::Range)?))
+    }
+    fn show(&self) -> String {
+        format!("g{}", self.to_bits())
+    }
+}
 impl<T: HV> HV for Option<T> {
     fn parse(p: &mut P) -> Result<Self, PErr> {
         if p.lit("S(") {
@@ -316,6 +333,17 @@ struct Other {
     id: i64,
 }
 impl Custom for Other {}
+/// a struct as `#[derive(Steel)] #[steel(constructors, getters)]` registers it (steel-derive `derive_steel_impl`):
+/// `impl Custom`, a constructor closure over the fields, one `|value: &T| value.f.clone().into_steelval()` per field,
+/// all through `BuiltInModule::register_fn`
+#[derive(Clone, Debug, PartialEq)]
+struct Rec2 {
+    a: i32,
+    name: String,
+    tags: Vec<u8>,
+    opt: Option<bool>,
+}
+impl Custom for Rec2 {}
 impl HV for Rec {
     fn parse(p: &mut P) -> Result<Self, PErr> {
         if !p.eat(b'R') {
@@ -530,6 +558,10 @@ impl Node {
     fn set(&mut self, v: usize) {
         self.v = v
     }
+    /// shape `Fn(&mut SELF, &[INNER], F) -> RET` (hand-written wrappers of register_fn.rs, one for `Engine`, one for `BuiltInModule`)
+    fn sum(&mut self, xs: &[isize], k: isize) -> String {
+        record(vec![self.v.show(), xs.to_vec().show(), k.show()])
+    }
     fn child(&mut self) -> &mut Node {
         self.child.as_mut().expect("c20: chain too short")
     }
@@ -553,6 +585,7 @@ fn new_engine(tab: &mut HashMap<String, String>) -> Engine {
     // recording functions, one per signature shape
     e.register_fn("f0", || -> String { record(vec![]) });
     tab.insert("f:".to_string(), "f0".to_string());
+    reg_f!(e, tab, "f:f32", "f1_f32", (a: f32));
     reg_f!(e, tab, "f:i8", "f1_i8", (a: i8));
     reg_f!(e, tab, "f:i16", "f1_i16", (a: i16));
     reg_f!(e, tab, "f:i32", "f1_i32", (a: i32));
@@ -627,6 +660,16 @@ fn new_engine(tab: &mut HashMap<String, String>) -> Engine {
     e.register_fn("node-set!", Node::set);
     RegisterFn::<_, MarkerWrapper7<(Node, Node, Node, Node)>, Node>::register_fn(&mut e, "node-child", Node::child);
     RegisterFn::<_, MarkerWrapper8<(Node, Node, Node, Node)>, Node>::register_fn(&mut e, "node-child-ro", Node::child_ro);
+    RegisterFn::<_, MarkerWrapper6<(Node, isize, isize)>, String>::register_fn(&mut e, "node-sum-eng", Node::sum);
+    let mut m = BuiltInModule::new("c20/mod");
+    RegisterFn::<_, MarkerWrapper6<(Node, isize, isize)>, String>::register_fn(&mut m, "node-sum-mod", Node::sum);
+    m.register_fn("Rec2", |a: i32, name: String, tags: Vec<u8>, opt: Option<bool>| Rec2 { a, name, tags, opt });
+    m.register_fn("Rec2-a", |value: &Rec2| value.a.clone().into_steelval());
+    m.register_fn("Rec2-name", |value: &Rec2| value.name.clone().into_steelval());
+    m.register_fn("Rec2-tags", |value: &Rec2| value.tags.clone().into_steelval());
+    m.register_fn("Rec2-opt", |value: &Rec2| value.opt.clone().into_steelval());
+    e.register_module(m);
+    e.run("(require-builtin c20/mod)").unwrap();
     e.run("(struct Holder (item))").unwrap();
     e
 }
@@ -681,6 +724,8 @@ macro_rules! both_types {
             "u64" => $m::<u64>($($arg),*), "usize" => $m::<usize>($($arg),*),
             "bool" => $m::<bool>($($arg),*), "char" => $m::<char>($($arg),*), "string" => $m::<String>($($arg),*),
             "unit" => $m::<()>($($arg),*), "f64" => $m::<f64>($($arg),*), "rec" => $m::<Rec>($($arg),*),
+            "f32" => $m::<f32>($($arg),*), "vec(f32)" => $m::<Vec<f32>>($($arg),*), "opt(f32)" => $m::<Option<f32>>($($arg),*),
+            "pair(f32,f64)" => $m::<(f32, f64)>($($arg),*),
             "opt(i32)" => $m::<Option<i32>>($($arg),*), "opt(u64)" => $m::<Option<u64>>($($arg),*),
             "opt(bool)" => $m::<Option<bool>>($($arg),*), "opt(string)" => $m::<Option<String>>($($arg),*),
             "opt(unit)" => $m::<Option<()>>($($arg),*), "opt(opt(i32))" => $m::<Option<Option<i32>>>($($arg),*),
@@ -742,6 +787,15 @@ fn wrap(place: &str, e: &str) -> Option<String> {
         "hashmap" => format!("(hash 'k {})", e),
         "box" => format!("(box {})", e),
         "struct" => format!("(Holder {})", e),
+        // more duplication paths of the VM: nested persistent containers, a promise, a parameter object, a hash set
+        // element, a value that travelled through another thread (captured by the thread's closure, returned, joined)
+        "nested" => format!("(list (immutable-vector (hash 'k (list {}))))", e),
+        // `delay` does not evaluate (and `force` does not memoise): bind the value first so that the promise holds IT
+        "promise" => format!("(let ((x {})) (delay x))", e),
+        "param" => format!("(make-parameter {})", e),
+        "hashset" => format!("(hashset {})", e),
+        "thread" => format!("(thread-join! (spawn-native-thread (lambda () {})))", e),
+        "restargs" => format!("(apply (lambda xs xs) (list 0 {}))", e),
         _ => return None,
     })
 }
@@ -754,6 +808,13 @@ fn unwrap_(place: &str, e: &str) -> String {
         "hashmap" => format!("(hash-ref {} 'k)", e),
         "box" => format!("(unbox {})", e),
         "struct" => format!("(Holder-item {})", e),
+        "nested" => format!("(car (hash-ref (vector-ref (car {}) 0) 'k))", e),
+        "promise" => format!("(force {})", e),
+        "param" => format!("({})", e),
+        "hashset" => format!("(car (hashset->list {}))", e),
+        "restargs" => format!("(cadr {})", e),
+        // a local variable of a frame captured by a continuation: re-enter the frame, which hands the value back
+        "cont" => format!("(call/cc (lambda (ret) ({} ret)))", e),
         _ => e.to_string(),
     }
 }
@@ -951,6 +1012,25 @@ fn one(st: &mut St, engine: &mut Engine, toks: &[&str], depth: usize) -> String 
                 Err(e) => format!("{} called={}", err_class(&e), if recv.is_some() { "yes" } else { "no" }),
             }
         }
+        "mkstruct" => {
+            // mkstruct <sval>*: `(Rec2 a ..)` then every getter on the result
+            let mut srcs = Vec::new();
+            for t in &toks[1..] {
+                let mut p = P::new(t);
+                match sv_source(&mut p) {
+                    Some(s) if p.done() => srcs.push(s),
+                    _ => return "bad parse".into(),
+                }
+            }
+            let src = format!(
+                "(let ((s (Rec2 {}))) (list (Rec2-a s) (Rec2-name s) (Rec2-tags s) (Rec2-opt s)))",
+                srcs.join(" ")
+            );
+            match run_class(engine, src) {
+                Ok(v) => format!("ok {}", show_sv(&v)),
+                Err(e) => e,
+            }
+        }
         "threaduse" => {
             // threaduse <h> <c>: another thread starts a slow host call on the handle (inside the call)
             if toks.len() != 3 {
@@ -978,6 +1058,38 @@ fn one(st: &mut St, engine: &mut Engine, toks: &[&str], depth: usize) -> String 
                 Err(e) => e,
             }
         }
+        "slice" => {
+            // slice <eng|mod> <h> <c> <sval>*: `(node-sum-<v> REF a1 ..)`, a host function `Fn(&mut SELF, &[isize], isize)`
+            if toks.len() < 4 || (toks[1] != "eng" && toks[1] != "mod") {
+                return "bad parse".into();
+            }
+            let (h, c) = match (toks[2].trim_start_matches('h').parse::<usize>(), toks[3].trim_start_matches('c').parse::<usize>()) {
+                (Ok(h), Ok(c)) => (h, c),
+                _ => return "bad parse".into(),
+            };
+            let from = match st.copies.get(&(h, c)) {
+                Some(cp) => unwrap_(&cp.place, &cname(h, c)),
+                None => return "bad no-copy".into(),
+            };
+            let mut srcs = Vec::new();
+            for t in &toks[4..] {
+                let mut p = P::new(t);
+                match sv_source(&mut p) {
+                    Some(s) if p.done() => srcs.push(s),
+                    _ => return "bad parse".into(),
+                }
+            }
+            RECV.with(|r| *r.borrow_mut() = None);
+            let r = engine.run(format!("(node-sum-{} {} {})", toks[1], from, srcs.join(" ")));
+            let recv = RECV.with(|r| r.borrow_mut().take());
+            match r {
+                Ok(_) => match recv {
+                    Some(rv) => format!("ok recv={}", rv),
+                    None => "ok called=no".into(),
+                },
+                Err(e) => format!("{} called={}", err_class(&e), if recv.is_some() { "yes" } else { "no" }),
+            }
+        }
         "copy" => {
             // copy <h> <c> <place>
             if toks.len() != 4 {
@@ -991,12 +1103,21 @@ fn one(st: &mut St, engine: &mut Engine, toks: &[&str], depth: usize) -> String 
                 Some(cp) => unwrap_(&cp.place, &cname(h, c)),
                 None => return "bad no-copy".into(),
             };
-            let w = match wrap(toks[3], &from) {
-                Some(w) => w,
-                None => return "bad place".into(),
-            };
             let k = *st.next_copy.get(&h).unwrap();
-            match run_class(engine, format!("(define {} {})", cname(h, k), w)) {
+            let src = if toks[3] == "cont" {
+                // the copy is the local `r` of a frame of `hold` that the continuation stored in C<h>_<k> captured
+                format!(
+                    "(define {n} #f) (define ({n}-hold r) (let ((f (call/cc (lambda (k) (set! {n} k) #f)))) (if f (f r) #f))) ({n}-hold {from})",
+                    n = cname(h, k),
+                    from = from
+                )
+            } else {
+                match wrap(toks[3], &from) {
+                    Some(w) => format!("(define {} {})", cname(h, k), w),
+                    None => return "bad place".into(),
+                }
+            };
+            match run_class(engine, src) {
                 Ok(_) => {
                     st.next_copy.insert(h, k + 1);
                     st.copies.insert((h, k), Copy_ { place: toks[3].to_string() });
@@ -1013,11 +1134,11 @@ fn one(st: &mut St, engine: &mut Engine, toks: &[&str], depth: usize) -> String 
                 (Ok(h), Ok(c)) => (h, c),
                 _ => return "bad parse".into(),
             };
-            // boxes and mutable vectors live on the collected heap: a handle stored there goes away when
+            // boxes, mutable vectors and parameter objects live on the collected heap: a handle stored there goes away when
             // the collector reuses the slot, not when the script lets go of it.  Such a copy cannot be
             // dropped at a definite point, so the protocol does not allow it.
             match st.copies.get(&(h, c)) {
-                Some(cp) if cp.place == "box" || cp.place == "mvector" => return "bad sticky".into(),
+                Some(cp) if cp.place == "box" || cp.place == "mvector" || cp.place == "param" => return "bad sticky".into(),
                 Some(_) => {}
                 None => return "bad no-copy".into(),
             }
